@@ -1,6 +1,6 @@
 (* Correspondence cases for C09: an op history on a layered store, one observation at its end,
    what the implementation returned; compared with the mechanism model AND with the ordered-map specification. *)
-From NG Require Import Common.Tactics Common.HarnessLib Store.Bytes Store.Model Store.Spec Store.Conc.
+From NG Require Import Common.Tactics Common.HarnessLib Store.Bytes Store.Model Store.Model2 Store.Spec Store.Conc.
 Open Scope N_scope.
 
 (* short names for generated terms *)
@@ -11,6 +11,9 @@ Definition F := OPersist.
 Definition PP := OPersistPrivate.
 Definition X := ODrop.
 Definition R := Build_range.
+Definition G := Build_gcfun.
+Definition GB := OGcBase.
+Definition GT := OGcTop.
 
 (* one action of a schedule (Store/Conc.v); the reader's range is given once per case *)
 Inductive sact := SW (b : lmap) | SSwap | SLw | SUn | SSnap | SRead.
@@ -40,18 +43,20 @@ Definition op_ok (o : op) : bool :=
   match o with
   | OPut k v => negb (isnil k) && bytes_okb k && bytes_okb v
   | ODel k => negb (isnil k) && bytes_okb k
+  | OGcBase r _ | OGcTop r _ => negb (isnil (rprefix r)) && bytes_okb (rprefix r) && bytes_okb (rstart r)
   | _ => true
   end.
 
 Definition take (lim : N) (l : kvs) : kvs := if lim =? 0 then l else firstn (N.to_nat lim) l.
 
-Definition model_of (s : stack) (api id : N) (r : range) : kvs :=
+(* the mechanism model is the two-map one (Store/Model2.v) *)
+Definition model_of (s : stack2) (api id : N) (r : range) : kvs :=
   match api with
-  | 0 | 1 => store_seek s false r
-  | 2 => store_seek s true r
-  | 3 => dao_seek s id r
-  | 4 | 6 => dao_seek_async s id r
-  | _ => find_keep s id r
+  | 0 | 1 => store_seek2 s false r
+  | 2 => store_seek2 s true r
+  | 3 => dao_seek2 s id r
+  | 4 | 6 => dao_seek_async2 s id r
+  | _ => find_keep2 s id r
   end.
 
 Definition spec_of (s : stack) (api id : N) (r : range) : kvs :=
@@ -138,7 +143,8 @@ Definition check_case (c : case) : N :=
       | Some b =>
           if forallb op_ok ops && negb (isnil k) && bytes_okb k then
             let s := run (init b) ops in
-            code_of (option_eqb keq (store_get s k) impl) (option_eqb keq (spec_get s k) impl)
+            let s2 := run2 (init2 b) ops in
+            code_of (option_eqb keq (store_get2 s2 k) impl) (option_eqb keq (spec_get s k) impl)
           else 3
       | None => 3
       end
@@ -148,7 +154,8 @@ Definition check_case (c : case) : N :=
           if forallb op_ok ops && bytes_okb (rprefix r) && bytes_okb (rstart r) && (api <? 7) && (id <? 4294967296)
              && ((3 <=? api) || negb (isnil (rprefix r))) then
             let s := run (init b) ops in
-            code_of (kvs_eqb (take lim (model_of s api id r)) impl) (kvs_eqb (take lim (spec_of s api id r)) impl)
+            let s2 := run2 (init2 b) ops in
+            code_of (kvs_eqb (take lim (model_of s2 api id r)) impl) (kvs_eqb (take lim (spec_of s api id r)) impl)
           else 3
       | None => 3
       end
